@@ -576,6 +576,13 @@ func builtinDateSetYear(call FunctionCall) Value {
 }
 
 func builtinDateSetFullYear(call FunctionCall) Value {
+	// 15.9.5.40 step 1: if this time value is NaN, let t be +0 (in local time).
+	if this := call.thisObject(); dateObjectOf(call.runtime, this).isNaN {
+		zero := dateObject{}
+		zero.SetTime(time.Date(1970, 1, 1, 0, 0, 0, 0, time.Local)) //nolint:gosmopolitan
+		this.value = zero
+	}
+
 	obj, date, ecmaTime, value := builtinDateBeforeSet(call, 3, true)
 	if ecmaTime == nil {
 		return NaNValue()
@@ -595,6 +602,13 @@ func builtinDateSetFullYear(call FunctionCall) Value {
 }
 
 func builtinDateSetUTCFullYear(call FunctionCall) Value {
+	// 15.9.5.41 step 1: if this time value is NaN, let t be +0.
+	if this := call.thisObject(); dateObjectOf(call.runtime, this).isNaN {
+		zero := dateObject{}
+		zero.Set(0)
+		this.value = zero
+	}
+
 	obj, date, ecmaTime, value := builtinDateBeforeSet(call, 3, false)
 	if ecmaTime == nil {
 		return NaNValue()
